@@ -56,8 +56,14 @@ def main():
         print(traceback.format_exc())
         return 3
 
+    # self-validation only (tools/mutants.py): stop early once any worker of the run has seen a violation; no registered
+    # command sets VMON_FAILFAST
+    ff = os.environ.get("VMON_FAILFAST")
     for case in job["cases"]:
         t0 = time.time()
+        if ff and os.path.exists(ff):
+            emit({"i": case["i"], "status": "inconclusive", "why": "fail-fast: another case of this run already violated", "key": f"ff-{case['i']}", "nontrivial": False, "evals": 0})
+            continue
         try:
             r = mod.run(case, ctx)
         except Exception:
@@ -71,6 +77,8 @@ def main():
         r.setdefault("evals", 1)
         r["t"] = round(time.time() - t0, 3)
         emit(r)
+        if ff and r.get("status") == "violated":
+            open(ff, "w").close()
     meta["reach"] = rm.report()
     if lm is not None:
         os.makedirs(os.environ["VMON_COVMAP"], exist_ok=True)
